@@ -19,6 +19,9 @@ spec_versions = st.one_of(st.sampled_from(["0.6.0", "0.1.0", "1.0.0"]), G.string
 thresholds = st.one_of(st.integers(1, 3), st.integers(1, 6), st.sampled_from([1, 2 ** 40]))
 
 
+RESERVED = ("type", "metadata_spec_version", "delegations", "expiration", "version", "timestamp")
+
+
 def signed_part(type_, delegations, version=1, timestamp="2020-07-13T05:46:45Z",
                 expiration="2031-07-13T05:46:45Z", spec="0.6.0", extra=None):
     s = {"type": type_, "metadata_spec_version": spec, "delegations": delegations, "expiration": expiration}
@@ -28,7 +31,8 @@ def signed_part(type_, delegations, version=1, timestamp="2020-07-13T05:46:45Z",
         s["timestamp"] = timestamp
     if extra:
         for k, v in extra.items():
-            s.setdefault(k, v)
+            # never let an "extra" field land on a schema field (Hypothesis likes to reuse constants such as "timestamp")
+            s["x-" + k if k in RESERVED else k] = v
     return s
 
 
